@@ -179,4 +179,760 @@ theorem latestS_snoc_dup (c : List Header) {h : Header} (hm : h ∈ c) : latestS
     simp only [Bool.not_eq_true] at this
     simp [this]
 
+/-! ### `denotesS` when one more header is loaded -/
+
+def exactP (key : String) (h : Header) : Bool := decide (h.rev ≠ "" ∧ h.name ++ "@" ++ h.rev = key)
+
+theorem denotesS_def (hs : List Header) (sub : Bool) (key : String) :
+    denotesS hs sub key =
+      ((hs.filter (·.isSub == sub)).find? (exactP key)).or
+        (latestS ((hs.filter (·.isSub == sub)).filter (·.name = key))) := by
+  unfold denotesS
+  simp only
+  split <;> rename_i h
+  · unfold exactP; rw [h]; rfl
+  · unfold exactP; rw [h]; rfl
+
+theorem denotesS_other {hs : List Header} {h : Header} {sub : Bool} (hk : h.isSub ≠ sub) (key : String) :
+    denotesS (hs ++ [h]) sub key = denotesS hs sub key := by
+  simp [denotesS_def, List.filter_append, hk]
+
+theorem denotesS_dup {hs : List Header} {h : Header} (hm : h ∈ hs) (sub : Bool) (key : String) :
+    denotesS (hs ++ [h]) sub key = denotesS hs sub key := by
+  by_cases hk : h.isSub = sub
+  · rw [denotesS_def, denotesS_def]
+    have hsame : h ∈ hs.filter (·.isSub == sub) := by simp [hm, hk]
+    simp only [List.filter_append, List.filter_cons, List.filter_nil, hk, beq_self_eq_true, if_true,
+      List.find?_append]
+    cases hf : (hs.filter (·.isSub == sub)).find? (exactP key) with
+    | some o => simp
+    | none =>
+      have hno : exactP key h = false := by
+        rw [List.find?_eq_none] at hf
+        simpa using hf h hsame
+      simp only [Option.none_or, List.find?_cons, hno, List.find?_nil]
+      by_cases hn : h.name = key
+      · simp only [hn, decide_true, if_true]
+        rw [latestS_snoc_dup]
+        simp [hm, hk, hn]
+      · simp [hn]
+  · exact denotesS_other hk key
+
+theorem denotesS_mem {hs : List Header} {sub : Bool} {key : String} {x : Header}
+    (h : denotesS hs sub key = some x) :
+    x ∈ hs ∧ x.isSub = sub ∧ ((x.rev ≠ "" ∧ x.name ++ "@" ++ x.rev = key) ∨ x.name = key) := by
+  rw [denotesS_def] at h
+  cases hf : (hs.filter (·.isSub == sub)).find? (exactP key) with
+  | some o =>
+    simp only [hf, Option.some_or, Option.some.injEq] at h
+    subst h
+    have h1 := List.mem_of_find?_eq_some hf
+    have h2 := List.find?_some hf
+    simp only [List.mem_filter, beq_iff_eq] at h1
+    simp only [exactP, decide_eq_true_eq] at h2
+    exact ⟨h1.1, h1.2, .inl h2⟩
+  | none =>
+    simp only [hf, Option.none_or] at h
+    have := (latestS_some h).1
+    simp only [List.mem_filter, beq_iff_eq, decide_eq_true_eq] at this
+    exact ⟨this.1.1, this.1.2, .inr this.2⟩
+
+/-- An exact key `name@rev` denotes the header with that name and revision, if loaded. -/
+theorem denotesS_exact_of_mem {hs : List Header} {h : Header} (hm : h ∈ hs) (hr : h.rev ≠ "") :
+    ∃ x, denotesS hs h.isSub (h.name ++ "@" ++ h.rev) = some x := by
+  rw [denotesS_def]
+  cases hf : (hs.filter (·.isSub == h.isSub)).find? (exactP (h.name ++ "@" ++ h.rev)) with
+  | some o => exact ⟨o, by simp⟩
+  | none =>
+    rw [List.find?_eq_none] at hf
+    have := hf h (by simp [hm])
+    simp [exactP, hr] at this
+
+/-- Loading a header without revision. -/
+theorem denotesS_snoc_unrev {hs : List Header} {h : Header} (hr : h.rev = "") (hn : NoAt h.name)
+    (key : String) :
+    denotesS (hs ++ [h]) h.isSub key =
+      if key = h.name then (match denotesS hs h.isSub key with | none => some h | some o => some o)
+      else denotesS hs h.isSub key := by
+  rw [denotesS_def, denotesS_def]
+  have hno : exactP key h = false := by simp [exactP, hr]
+  simp only [List.filter_append, List.filter_cons, List.filter_nil, beq_self_eq_true, if_true,
+    List.find?_append, List.find?_cons, hno, List.find?_nil, Option.or_none]
+  by_cases hk : key = h.name
+  · subst hk
+    have hex : (hs.filter (·.isSub == h.isSub)).find? (exactP h.name) = none := by
+      rw [List.find?_eq_none]
+      intro x _
+      simp only [exactP, decide_eq_true_eq, not_and]
+      intro _ he
+      exact key_ne_name hn he
+    simp only [hex, Option.none_or, decide_true, if_true]
+    rw [latestS_snoc]
+    cases latestS ((hs.filter (·.isSub == h.isSub)).filter (·.name = h.name)) with
+    | none => rfl
+    | some o => simp [hr, strLt_empty_right]
+  · have : ¬ h.name = key := fun e => hk e.symm
+    simp [hk, this]
+
+/-- Loading a header with a revision that is not loaded yet. -/
+theorem denotesS_snoc_rev {hs : List Header} {h : Header} (hr : h.rev ≠ "") (hnew : h ∉ hs)
+    (hn : NoAt h.name) (hns : ∀ x ∈ hs, NoAt x.name) (key : String) :
+    denotesS (hs ++ [h]) h.isSub key =
+      if key = h.name ++ "@" ++ h.rev then some h
+      else if key = h.name then
+        (match denotesS hs h.isSub key with
+         | none => some h
+         | some o => if strLt o.rev h.rev then some h else some o)
+      else denotesS hs h.isSub key := by
+  rw [denotesS_def, denotesS_def]
+  simp only [List.filter_append, List.filter_cons, List.filter_nil, beq_self_eq_true, if_true,
+    List.find?_append, List.find?_cons, List.find?_nil]
+  by_cases hk : key = h.name ++ "@" ++ h.rev
+  · subst hk
+    have hex : (hs.filter (·.isSub == h.isSub)).find? (exactP (h.name ++ "@" ++ h.rev)) = none := by
+      rw [List.find?_eq_none]
+      intro x hx
+      simp only [List.mem_filter, beq_iff_eq] at hx
+      simp only [exactP, decide_eq_true_eq, not_and]
+      intro _ he
+      have := key_inj (hns x hx.1) hn he
+      apply hnew
+      have : x = h := by
+        cases x; cases h; simp_all
+      exact this ▸ hx.1
+    have hyes : exactP (h.name ++ "@" ++ h.rev) h = true := by simp [exactP, hr]
+    simp [hex, hyes]
+  · have hno : exactP key h = false := by
+      simp only [exactP, decide_eq_false_iff_not, not_and]
+      intro _ he; exact hk he.symm
+    simp only [hno, hk, if_false, Option.or_none]
+    by_cases hk2 : key = h.name
+    · subst hk2
+      have hex : (hs.filter (·.isSub == h.isSub)).find? (exactP h.name) = none := by
+        rw [List.find?_eq_none]
+        intro x _
+        simp only [exactP, decide_eq_true_eq, not_and]
+        intro _ he
+        exact key_ne_name hn he
+      simp only [hex, Option.none_or, decide_true, if_true]
+      rw [latestS_snoc]
+    · have : ¬ h.name = key := fun e => hk2 e.symm
+      simp [hk2, this]
+
+/-! ### association lists as maps -/
+
+theorem get?_append (m : KeyMap) (k : String) (v : Nat) (k' : String) :
+    KeyMap.get? (m ++ [(k, v)]) k' =
+      match KeyMap.get? m k' with
+      | some x => some x
+      | none => if k' = k then some v else none := by
+  unfold KeyMap.get?
+  rw [List.find?_append]
+  cases hf : m.find? (·.1 == k') with
+  | some x => simp
+  | none =>
+    by_cases hk : k' = k
+    · subst hk; simp
+    · have : ¬ k = k' := fun e => hk e.symm
+      simp [hk, this]
+
+theorem get?_map_replace (m : KeyMap) (k : String) (v : Nat) (k' : String) :
+    KeyMap.get? (m.map fun kv => if kv.1 == k then (k, v) else kv) k' =
+      if k' = k then (if m.any (·.1 == k) then some v else none) else KeyMap.get? m k' := by
+  unfold KeyMap.get?
+  induction m with
+  | nil => simp
+  | cons kv rest ih =>
+    rw [List.map_cons, List.find?_cons, List.find?_cons, List.any_cons]
+    by_cases h1 : kv.1 = k
+    · have e1 : (kv.1 == k) = true := by simpa using h1
+      simp only [e1, if_true, Bool.true_or]
+      by_cases hk : k' = k
+      · subst hk; simp
+      · have e2 : (k == k') = false := by simpa using fun e => hk (Eq.symm e)
+        have e3 : (kv.1 == k') = false := by rw [h1]; exact e2
+        simp only [e2, e3, hk, if_false] at ih ⊢
+        exact ih
+    · have e1 : (kv.1 == k) = false := by simpa using h1
+      simp only [e1, Bool.false_or, if_false, Bool.false_eq_true]
+      by_cases hk : kv.1 = k'
+      · have e2 : (kv.1 == k') = true := by simpa using hk
+        have : ¬ k' = k := fun e => h1 (hk.trans e)
+        simp [e2, this]
+      · have e2 : (kv.1 == k') = false := by simpa using hk
+        simp only [e2]
+        exact ih
+
+theorem get?_eq_none_of_not_any {m : KeyMap} {k : String} (h : m.any (·.1 == k) = false) :
+    KeyMap.get? m k = none := by
+  unfold KeyMap.get?
+  rw [Option.map_eq_none_iff, List.find?_eq_none]
+  intro x hx
+  have := List.any_eq_false.mp h x hx
+  simpa using this
+
+/-- Go map assignment then lookup. -/
+theorem get?_bind (m : KeyMap) (k : String) (v : Nat) (k' : String) :
+    KeyMap.get? (m.bind k v) k' = if k' = k then some v else KeyMap.get? m k' := by
+  unfold KeyMap.bind
+  by_cases ha : m.any (·.1 == k) = true
+  · rw [if_pos ha, get?_map_replace]; simp [ha]
+  · rw [if_neg ha, get?_append]
+    have ha' : m.any (·.1 == k) = false := Bool.eq_false_iff.mpr ha
+    by_cases hk : k' = k
+    · subst hk; simp [get?_eq_none_of_not_any ha']
+    · simp only [hk, if_false]; cases KeyMap.get? m k' <;> rfl
+
+/-! ### module ids -/
+
+theorem find?_seq : ∀ (l : List Mod) (off id : Nat), (∀ i (h : i < l.length), (l[i]).seq = off + i) →
+    l.find? (·.seq == off + id) = l[id]?
+  | [], _, _, _ => by simp
+  | m :: rest, off, id, h => by
+    have h0 := h 0 (by simp)
+    simp only [List.getElem_cons_zero, Nat.add_zero] at h0
+    cases id with
+    | zero => simp [h0]
+    | succ id =>
+      have hne : (m.seq == off + (id + 1)) = false := by simp [h0]
+      simp only [List.find?_cons, hne, List.getElem?_cons_succ]
+      have := find?_seq rest (off + 1) id (fun i hi => by
+        have := h (i + 1) (by simpa using hi)
+        simp only [List.getElem_cons_succ] at this
+        omega)
+      rw [← this]; congr 1; funext x; congr 1; omega
+
+def SeqOk (mods : List Mod) : Prop := ∀ i (h : i < mods.length), (mods[i]).seq = i
+
+theorem byId_eq {r : Registry} (h : SeqOk r.mods) (id : Nat) : r.byId id = r.mods[id]? := by
+  have := find?_seq r.mods 0 id (by simpa [SeqOk] using h)
+  simpa [Registry.byId] using this
+
+theorem seqOk_snoc {mods : List Mod} (h : SeqOk mods) (s : Stmt) : SeqOk (mods ++ [⟨mods.length, s⟩]) := by
+  intro i hi
+  by_cases hlt : i < mods.length
+  · rw [List.getElem_append_left hlt]; exact h i hlt
+  · have : i = mods.length := by simp at hi; omega
+    subst this; simp
+
+/-! ### the registry invariant -/
+
+def hdrOf (m : Mod) : Header := ⟨m.isSub, m.name, m.current⟩
+def hdr (s : Stmt) : Header := hdrOf ⟨0, s⟩
+
+theorem hdrOf_eq (m : Mod) : hdrOf m = hdr m.stmt := rfl
+
+/-- What a key denotes in the table of a kind (`getSub` / `getModule`). -/
+def lk (r : Registry) (sub : Bool) (k : String) : Option Mod := ((r.kmOf sub).get? k).bind r.byId
+
+theorem lk_true (r : Registry) (k : String) : lk r true k = r.getSub k := rfl
+theorem lk_false (r : Registry) (k : String) : lk r false k = r.getModule k := rfl
+
+theorem kmOf_withKm (r : Registry) (b b' : Bool) (km : KeyMap) :
+    (r.withKm b km).kmOf b' = if b' = b then km else r.kmOf b' := by
+  cases b <;> cases b' <;> rfl
+theorem umOf_withKm (r : Registry) (b b' : Bool) (km : KeyMap) : (r.withKm b km).umOf b' = r.umOf b' := by
+  cases b <;> cases b' <;> rfl
+theorem mods_withKm (r : Registry) (b : Bool) (km : KeyMap) : (r.withKm b km).mods = r.mods := by
+  cases b <;> rfl
+theorem kmOf_withUm (r : Registry) (b b' : Bool) (um : KeyMap) : (r.withUm b um).kmOf b' = r.kmOf b' := by
+  cases b <;> cases b' <;> rfl
+theorem umOf_withUm (r : Registry) (b b' : Bool) (um : KeyMap) :
+    (r.withUm b um).umOf b' = if b' = b then um else r.umOf b' := by
+  cases b <;> cases b' <;> rfl
+theorem mods_withUm (r : Registry) (b : Bool) (um : KeyMap) : (r.withUm b um).mods = r.mods := by
+  cases b <;> rfl
+
+theorem fullName_eq (m : Mod) :
+    m.fullName = if m.current = "" then m.name else m.name ++ "@" ++ m.current := by
+  unfold Mod.fullName
+  by_cases h : m.current = "" <;> simp [h]
+
+theorem fullName_beq_name (m : Mod) : (m.fullName == m.name) = decide (m.current = "") := by
+  rw [fullName_eq]
+  by_cases h : m.current = ""
+  · simp [h]
+  · simp only [h, if_false, decide_false]
+    exact beq_false_of_ne (key_ne_self _ _)
+
+structure Inv (r : Registry) (L : List Stmt) : Prop where
+  seq : SeqOk r.mods
+  valid : ∀ sub k id, (r.kmOf sub).get? k = some id → id < r.mods.length
+  src : ∀ m ∈ r.mods, m.stmt ∈ L
+  look : ∀ sub k, (lk r sub k).map hdrOf = denotesS (L.map hdr) sub k
+  unrev : ∀ sub n, ((r.umOf sub).get? n).isSome = true ↔ (⟨sub, n, ""⟩ : Header) ∈ L.map hdr
+
+theorem inv_empty : Inv {} [] where
+  seq := by intro i h; simp at h
+  valid := by intro sub k id h; cases sub <;> simp [Registry.kmOf, KeyMap.get?] at h
+  src := by simp
+  look := by intro sub k; cases sub <;> simp [lk, Registry.kmOf, KeyMap.get?, denotesS, latestS]
+  unrev := by intro sub n; cases sub <;> simp [Registry.umOf, KeyMap.get?]
+
+theorem inv_dup {r : Registry} {L : List Stmt} {s : Stmt} (inv : Inv r L) (hd : hdr s ∈ L.map hdr) :
+    Inv r (L ++ [s]) where
+  seq := inv.seq
+  valid := inv.valid
+  src := fun m hm => List.mem_append_left _ (inv.src m hm)
+  look := by
+    intro sub k
+    rw [List.map_append, List.map_cons, List.map_nil, denotesS_dup hd]
+    exact inv.look sub k
+  unrev := by
+    intro sub n
+    rw [inv.unrev, List.map_append, List.mem_append]
+    constructor
+    · exact .inl
+    · rintro (h | h)
+      · exact h
+      · simp only [List.map_cons, List.map_nil, List.mem_singleton] at h
+        rw [h]; exact hd
+
+/-- Lookup of an id after one more module has been appended. -/
+theorem byId_snoc {r r' : Registry} {s : Stmt} (hseq : SeqOk r.mods)
+    (hmods : r'.mods = r.mods ++ [⟨r.mods.length, s⟩]) (id : Nat) :
+    r'.byId id = if id < r.mods.length then r.byId id
+      else if id = r.mods.length then some ⟨r.mods.length, s⟩ else none := by
+  have hseq' : SeqOk r'.mods := by rw [hmods]; exact seqOk_snoc hseq s
+  rw [byId_eq hseq', byId_eq hseq, hmods]
+  by_cases h1 : id < r.mods.length
+  · rw [if_pos h1, List.getElem?_append_left h1]
+  · rw [if_neg h1]
+    by_cases h2 : id = r.mods.length
+    · subst h2; simp
+    · rw [if_neg h2]
+      apply List.getElem?_eq_none
+      simp; omega
+
+theorem byId_some_of_lt {r : Registry} (hseq : SeqOk r.mods) {id : Nat} (h : id < r.mods.length) :
+    ∃ o, r.byId id = some o ∧ o ∈ r.mods := by
+  rw [byId_eq hseq]
+  exact ⟨r.mods[id], List.getElem?_eq_getElem h, List.getElem_mem h⟩
+
+theorem lk_snoc {r r' : Registry} {s : Stmt} (inv_seq : SeqOk r.mods)
+    (hmods : r'.mods = r.mods ++ [⟨r.mods.length, s⟩]) (sub : Bool) (k : String) :
+    lk r' sub k =
+      match (r'.kmOf sub).get? k with
+      | none => none
+      | some id => if id < r.mods.length then r.byId id
+          else if id = r.mods.length then some ⟨r.mods.length, s⟩ else none := by
+  unfold lk
+  cases (r'.kmOf sub).get? k with
+  | none => rfl
+  | some id => simp only [Option.bind_some]; exact byId_snoc inv_seq hmods id
+
+/-- A table entry that is there denotes a loaded module. -/
+theorem lk_of_get? {r : Registry} {L : List Stmt} (inv : Inv r L) {sub : Bool} {k : String} {id : Nat}
+    (h : (r.kmOf sub).get? k = some id) : ∃ o, r.byId id = some o ∧ lk r sub k = some o ∧ o ∈ r.mods := by
+  obtain ⟨o, ho, hmem⟩ := byId_some_of_lt inv.seq (inv.valid sub k id h)
+  exact ⟨o, ho, by simp [lk, h, ho], hmem⟩
+
+theorem lk_none_of_get? {r : Registry} {sub : Bool} {k : String} (h : (r.kmOf sub).get? k = none) :
+    lk r sub k = none := by simp [lk, h]
+
+theorem noAt_hdrs {L : List Stmt} (hL : ∀ t ∈ L, NoAt t.arg) : ∀ x ∈ L.map hdr, NoAt x.name := by
+  intro x hx
+  obtain ⟨t, ht, rfl⟩ := List.mem_map.mp hx
+  exact hL t ht
+
+theorem hdr_eta (h : Header) : h = ⟨h.isSub, h.name, h.rev⟩ := rfl
+
+/-- A lookup whose table entry is an old id is the old lookup. -/
+theorem lk_snoc_old {r r' : Registry} {L : List Stmt} {s : Stmt} (inv : Inv r L)
+    (hmods : r'.mods = r.mods ++ [⟨r.mods.length, s⟩]) {sub : Bool} {k : String}
+    (hsame : (r'.kmOf sub).get? k = (r.kmOf sub).get? k) : lk r' sub k = lk r sub k := by
+  rw [lk_snoc inv.seq hmods, hsame]
+  cases hg : (r.kmOf sub).get? k with
+  | none => simp [lk, hg]
+  | some id =>
+    have := inv.valid sub k id hg
+    simp [lk, hg, this]
+
+theorem lk_snoc_new {r r' : Registry} {s : Stmt} (hseq : SeqOk r.mods)
+    (hmods : r'.mods = r.mods ++ [⟨r.mods.length, s⟩]) {sub : Bool} {k : String}
+    (hnew : (r'.kmOf sub).get? k = some r.mods.length) : lk r' sub k = some ⟨r.mods.length, s⟩ := by
+  rw [lk_snoc hseq hmods, hnew]; simp
+
+/-- The successful load of a module without revision. -/
+theorem inv_add_unrev {r : Registry} {L : List Stmt} {s : Stmt} (inv : Inv r L)
+    (hs : NoAt s.arg) (hc : (hdr s).rev = "")
+    (hum : (r.umOf (hdr s).isSub).get? (hdr s).name = none) :
+    hdr s ∉ L.map hdr ∧
+    Inv (({ r with mods := r.mods ++ [(⟨r.mods.length, s⟩ : Mod)] } : Registry).withUm (hdr s).isSub
+          ((r.umOf (hdr s).isSub).bind (hdr s).name r.mods.length)
+        |>.withKm (hdr s).isSub
+          (match (r.kmOf (hdr s).isSub).get? (hdr s).name with
+           | some _ => r.kmOf (hdr s).isSub
+           | none => (r.kmOf (hdr s).isSub).bind (hdr s).name r.mods.length)) (L ++ [s]) := by
+  generalize hh : hdr s = h at *
+  have hnew : h ∉ L.map hdr := by
+    intro hm
+    have := (inv.unrev h.isSub h.name).mpr (by rw [← hc]; exact hm)
+    simp [hum] at this
+  refine ⟨hnew, ?_⟩
+  generalize hr' : Registry.withKm _ _ _ = r'
+  have hmods : r'.mods = r.mods ++ [⟨r.mods.length, s⟩] := by
+    rw [← hr', mods_withKm, mods_withUm]
+  have hkm : ∀ b', r'.kmOf b' = if b' = h.isSub then
+      (match (r.kmOf h.isSub).get? h.name with
+           | some _ => r.kmOf h.isSub
+           | none => (r.kmOf h.isSub).bind h.name r.mods.length) else r.kmOf b' := by
+    intro b'; rw [← hr', kmOf_withKm]
+    by_cases hb : b' = h.isSub
+    · simp [hb]
+    · simp only [hb, if_false, kmOf_withUm]; cases b' <;> rfl
+  have hum' : ∀ b', r'.umOf b' = if b' = h.isSub then (r.umOf h.isSub).bind h.name r.mods.length
+      else r.umOf b' := by
+    intro b'; rw [← hr', umOf_withKm, umOf_withUm]
+    by_cases hb : b' = h.isSub
+    · simp [hb]
+    · simp only [hb, if_false]; cases b' <;> rfl
+  have hmap : (L ++ [s]).map hdr = L.map hdr ++ [h] := by simp [hh]
+  -- the table of the kind of `s`, key by key
+  have hget : ∀ k, (r'.kmOf h.isSub).get? k =
+      if k = h.name then (match (r.kmOf h.isSub).get? h.name with
+        | some id => some id | none => some r.mods.length) else (r.kmOf h.isSub).get? k := by
+    intro k
+    rw [hkm, if_pos rfl]
+    cases hg : (r.kmOf h.isSub).get? h.name with
+    | some id => by_cases hk : k = h.name <;> simp [hk, hg]
+    | none => simp only [get?_bind]
+  constructor
+  · rw [hmods]; exact seqOk_snoc inv.seq s
+  · intro sub k id hg
+    rw [hmods, List.length_append]; simp only [List.length_singleton]
+    by_cases hb : sub = h.isSub
+    · subst hb
+      rw [hget] at hg
+      by_cases hk : k = h.name
+      · rw [if_pos hk] at hg
+        cases hg0 : (r.kmOf h.isSub).get? h.name with
+        | some id0 =>
+          rw [hg0] at hg; simp only [Option.some.injEq] at hg
+          have := inv.valid _ _ _ hg0; omega
+        | none => rw [hg0] at hg; simp only [Option.some.injEq] at hg; omega
+      · rw [if_neg hk] at hg
+        have := inv.valid _ _ _ hg; omega
+    · rw [hkm, if_neg hb] at hg
+      have := inv.valid _ _ _ hg; omega
+  · intro m hm
+    rw [hmods] at hm
+    rcases List.mem_append.mp hm with hm | hm
+    · exact List.mem_append_left _ (inv.src m hm)
+    · simp only [List.mem_singleton] at hm; subst hm; simp
+  · intro sub k
+    rw [hmap]
+    by_cases hb : sub = h.isSub
+    · subst hb
+      rw [denotesS_snoc_unrev hc (hh ▸ hs)]
+      by_cases hk : k = h.name
+      · subst hk
+        rw [if_pos rfl, ← inv.look]
+        cases hg0 : (r.kmOf h.isSub).get? h.name with
+        | some id0 =>
+          obtain ⟨o, _, hlk, _⟩ := lk_of_get? inv hg0
+          have : lk r' h.isSub h.name = lk r h.isSub h.name :=
+            lk_snoc_old inv hmods (by rw [hget, if_pos rfl, hg0])
+          rw [this, hlk]; rfl
+        | none =>
+          rw [lk_none_of_get? hg0]
+          have : lk r' h.isSub h.name = some ⟨r.mods.length, s⟩ :=
+            lk_snoc_new inv.seq hmods (by rw [hget, if_pos rfl, hg0])
+          rw [this]; simp only [Option.map_some, Option.map_none]; rw [hdrOf_eq, hh]
+      · rw [if_neg hk, ← inv.look]
+        rw [lk_snoc_old inv hmods (by rw [hget, if_neg hk])]
+    · have hb' : h.isSub ≠ sub := fun e => hb e.symm
+      rw [denotesS_other hb', ← inv.look]
+      rw [lk_snoc_old inv hmods (by rw [hkm, if_neg hb])]
+  · intro sub n
+    rw [hmap, List.mem_append, ← inv.unrev, hum']
+    by_cases hb : sub = h.isSub
+    · subst hb
+      rw [if_pos rfl, get?_bind]
+      by_cases hn : n = h.name
+      · subst hn
+        simp only [if_true, Option.isSome_some, List.mem_singleton, true_iff]
+        right; rw [← hc]
+      · simp only [hn, if_false, List.mem_singleton]
+        constructor
+        · exact .inl
+        · rintro (h1 | h1)
+          · exact h1
+          · exact absurd (congrArg Header.name h1) hn
+    · rw [if_neg hb]
+      simp only [List.mem_singleton]
+      constructor
+      · exact .inl
+      · rintro (h1 | h1)
+        · exact h1
+        · exact absurd (congrArg Header.isSub h1) hb
+
+theorem strLt_fullName {o : Mod} {name rev : String} (ho : o.name = name) (hr : rev ≠ "") :
+    strLt o.fullName (name ++ "@" ++ rev) = strLt o.current rev := by
+  rw [fullName_eq, ho]
+  by_cases hc : o.current = ""
+  · rw [if_pos hc, hc, String.append_assoc]
+    have h1 : strLt name (name ++ ("@" ++ rev)) = true := by
+      apply strLt_prefix
+      intro h
+      have := congrArg (fun s => s.toList.length) h
+      simp [String.toList_append] at this
+    have h2 : strLt "" rev = true := (strLt_empty_left rev).mpr hr
+    rw [h1, h2]
+  · rw [if_neg hc, strLt_append_left]
+
+/-- The successful load of a module with a revision. -/
+theorem inv_add_rev {r : Registry} {L : List Stmt} {s : Stmt} (inv : Inv r L)
+    (hs : NoAt s.arg) (hL : ∀ t ∈ L, NoAt t.arg) (hc : (hdr s).rev ≠ "")
+    (hg : (r.kmOf (hdr s).isSub).get? ((hdr s).name ++ "@" ++ (hdr s).rev) = none) :
+    hdr s ∉ L.map hdr ∧
+    Inv (({ r with mods := r.mods ++ [(⟨r.mods.length, s⟩ : Mod)] } : Registry).withKm (hdr s).isSub
+          (match ((r.kmOf (hdr s).isSub).bind ((hdr s).name ++ "@" ++ (hdr s).rev) r.mods.length).get? (hdr s).name with
+           | none => ((r.kmOf (hdr s).isSub).bind ((hdr s).name ++ "@" ++ (hdr s).rev) r.mods.length).bind
+                (hdr s).name r.mods.length
+           | some oid =>
+             match ({ r with mods := r.mods ++ [(⟨r.mods.length, s⟩ : Mod)] } : Registry).byId oid with
+             | none => (r.kmOf (hdr s).isSub).bind ((hdr s).name ++ "@" ++ (hdr s).rev) r.mods.length
+             | some o =>
+               if strLt o.fullName ((hdr s).name ++ "@" ++ (hdr s).rev) then
+                 ((r.kmOf (hdr s).isSub).bind ((hdr s).name ++ "@" ++ (hdr s).rev) r.mods.length).bind
+                   (hdr s).name r.mods.length
+               else (r.kmOf (hdr s).isSub).bind ((hdr s).name ++ "@" ++ (hdr s).rev) r.mods.length))
+      (L ++ [s]) := by
+  have hn : NoAt (hdr s).name := hs
+  generalize hh : hdr s = h at *
+  have hnew : h ∉ L.map hdr := by
+    intro hm
+    obtain ⟨x, hx⟩ := denotesS_exact_of_mem hm hc
+    rw [← inv.look, lk_none_of_get? hg] at hx
+    simp at hx
+  refine ⟨hnew, ?_⟩
+  have hfn : h.name ++ "@" ++ h.rev ≠ h.name := key_ne_self _ _
+  have hnf : h.name ≠ h.name ++ "@" ++ h.rev := fun e => hfn e.symm
+  -- the new table, key by key: the full name is bound to the new module; the bare name is rebound
+  -- when it is free or held by a smaller full name
+  have hkm2 : ∃ km2, (match ((r.kmOf h.isSub).bind (h.name ++ "@" ++ h.rev) r.mods.length).get? h.name with
+           | none => ((r.kmOf h.isSub).bind (h.name ++ "@" ++ h.rev) r.mods.length).bind h.name r.mods.length
+           | some oid =>
+             match ({ r with mods := r.mods ++ [(⟨r.mods.length, s⟩ : Mod)] } : Registry).byId oid with
+             | none => (r.kmOf h.isSub).bind (h.name ++ "@" ++ h.rev) r.mods.length
+             | some o =>
+               if strLt o.fullName (h.name ++ "@" ++ h.rev) then
+                 ((r.kmOf h.isSub).bind (h.name ++ "@" ++ h.rev) r.mods.length).bind h.name r.mods.length
+               else (r.kmOf h.isSub).bind (h.name ++ "@" ++ h.rev) r.mods.length) = km2 ∧
+      ∀ k, km2.get? k =
+        if k = h.name ++ "@" ++ h.rev then some r.mods.length
+        else if k = h.name then
+          (match lk r h.isSub h.name with
+           | none => some r.mods.length
+           | some o => if strLt o.current h.rev then some r.mods.length else (r.kmOf h.isSub).get? h.name)
+        else (r.kmOf h.isSub).get? k := by
+    refine ⟨_, rfl, ?_⟩
+    intro k
+    rw [get?_bind, if_neg hnf]
+    cases hg0 : (r.kmOf h.isSub).get? h.name with
+    | none =>
+      simp only [lk_none_of_get? hg0, get?_bind]
+      by_cases hk1 : k = h.name ++ "@" ++ h.rev
+      · have : k ≠ h.name := by rw [hk1]; exact hfn
+        simp [hk1, this, hfn]
+      · by_cases hk2 : k = h.name <;> simp [hk1, hk2]
+    | some oid =>
+      obtain ⟨o, ho, hlk, _⟩ := lk_of_get? inv hg0
+      have hby : ({ r with mods := r.mods ++ [(⟨r.mods.length, s⟩ : Mod)] } : Registry).byId oid = some o := by
+        rw [byId_snoc inv.seq rfl, if_pos (inv.valid _ _ _ hg0)]; exact ho
+      simp only [hby, hlk]
+      have hon : o.name = h.name := by
+        have := inv.look h.isSub h.name
+        rw [hlk] at this
+        obtain ⟨_, _, h3⟩ := denotesS_mem this.symm
+        rcases h3 with ⟨_, h3⟩ | h3
+        · exact absurd h3 (key_ne_name hn)
+        · exact h3
+      rw [strLt_fullName hon hc]
+      by_cases hlt : strLt o.current h.rev = true
+      · simp only [hlt, if_true, get?_bind]
+        by_cases hk1 : k = h.name ++ "@" ++ h.rev
+        · have : k ≠ h.name := by rw [hk1]; exact hfn
+          simp [hk1, this, hfn]
+        · by_cases hk2 : k = h.name <;> simp [hk1, hk2]
+      · simp only [hlt, if_false, Bool.false_eq_true, get?_bind]
+        by_cases hk1 : k = h.name ++ "@" ++ h.rev
+        · simp [hk1]
+        · by_cases hk2 : k = h.name
+          · subst hk2; simp [hk1, hg0]
+          · simp [hk1, hk2]
+  obtain ⟨km2, hkm2eq, hget⟩ := hkm2
+  rw [hkm2eq]
+  generalize hr' : Registry.withKm _ _ _ = r'
+  have hmods : r'.mods = r.mods ++ [⟨r.mods.length, s⟩] := by rw [← hr', mods_withKm]
+  have hkm : ∀ b', r'.kmOf b' = if b' = h.isSub then km2 else r.kmOf b' := by
+    intro b'; rw [← hr', kmOf_withKm]
+    by_cases hb : b' = h.isSub
+    · simp [hb]
+    · simp only [hb, if_false]; cases b' <;> rfl
+  have hum' : ∀ b', r'.umOf b' = r.umOf b' := by
+    intro b'; rw [← hr', umOf_withKm]; cases b' <;> rfl
+  have hmap : (L ++ [s]).map hdr = L.map hdr ++ [h] := by simp [hh]
+  constructor
+  · rw [hmods]; exact seqOk_snoc inv.seq s
+  · intro sub k id hgk
+    rw [hmods, List.length_append]; simp only [List.length_singleton]
+    by_cases hb : sub = h.isSub
+    · subst hb
+      rw [hkm, if_pos rfl, hget] at hgk
+      by_cases hk1 : k = h.name ++ "@" ++ h.rev
+      · rw [if_pos hk1] at hgk; simp only [Option.some.injEq] at hgk; omega
+      · rw [if_neg hk1] at hgk
+        by_cases hk2 : k = h.name
+        · rw [if_pos hk2] at hgk
+          cases hl : lk r h.isSub h.name with
+          | none => rw [hl] at hgk; simp only [Option.some.injEq] at hgk; omega
+          | some o =>
+            rw [hl] at hgk; simp only at hgk
+            by_cases hlt : strLt o.current h.rev = true
+            · rw [if_pos hlt] at hgk; simp only [Option.some.injEq] at hgk; omega
+            · rw [if_neg hlt] at hgk; have := inv.valid _ _ _ hgk; omega
+        · rw [if_neg hk2] at hgk; have := inv.valid _ _ _ hgk; omega
+    · rw [hkm, if_neg hb] at hgk
+      have := inv.valid _ _ _ hgk; omega
+  · intro m hm
+    rw [hmods] at hm
+    rcases List.mem_append.mp hm with hm | hm
+    · exact List.mem_append_left _ (inv.src m hm)
+    · simp only [List.mem_singleton] at hm; subst hm; simp
+  · intro sub k
+    rw [hmap]
+    by_cases hb : sub = h.isSub
+    · subst hb
+      rw [denotesS_snoc_rev hc hnew hn (noAt_hdrs hL)]
+      have hnewm : hdrOf ⟨r.mods.length, s⟩ = h := by rw [hdrOf_eq, hh]
+      by_cases hk1 : k = h.name ++ "@" ++ h.rev
+      · rw [if_pos hk1]
+        rw [lk_snoc_new inv.seq hmods (by rw [hkm, if_pos rfl, hget, if_pos hk1])]
+        simp [hnewm]
+      · rw [if_neg hk1]
+        by_cases hk2 : k = h.name
+        · subst hk2
+          rw [if_pos rfl, ← inv.look]
+          cases hl : lk r h.isSub h.name with
+          | none =>
+            rw [lk_snoc_new inv.seq hmods (by rw [hkm, if_pos rfl, hget, if_neg hk1, if_pos rfl, hl])]
+            simp [hnewm]
+          | some o =>
+            simp only [Option.map_some]
+            have hoc : (hdrOf o).rev = o.current := rfl
+            rw [hoc]
+            by_cases hlt : strLt o.current h.rev = true
+            · rw [lk_snoc_new inv.seq hmods (by rw [hkm, if_pos rfl, hget, if_neg hk1, if_pos rfl, hl]; simp [hlt])]
+              simp [hnewm, hlt]
+            · rw [lk_snoc_old inv hmods (by rw [hkm, if_pos rfl, hget, if_neg hk1, if_pos rfl, hl]; simp [hlt])]
+              simp [hl, hlt]
+        · rw [if_neg hk2, ← inv.look]
+          rw [lk_snoc_old inv hmods (by rw [hkm, if_pos rfl, hget, if_neg hk1, if_neg hk2])]
+    · have hb' : h.isSub ≠ sub := fun e => hb e.symm
+      rw [denotesS_other hb', ← inv.look]
+      rw [lk_snoc_old inv hmods (by rw [hkm, if_neg hb])]
+  · intro sub n
+    rw [hmap, List.mem_append, ← inv.unrev, hum']
+    simp only [List.mem_singleton]
+    constructor
+    · exact .inl
+    · rintro (h1 | h1)
+      · exact h1
+      · exact absurd (congrArg Header.rev h1).symm hc
+
+/-- One `add`: rejected exactly when a load with the same header came before; the invariant goes on. -/
+theorem add_step {r : Registry} {L : List Stmt} {s : Stmt} (inv : Inv r L)
+    (hs : NoAt s.arg) (hL : ∀ t ∈ L, NoAt t.arg) :
+    match r.add s with
+    | .ok r' => hdr s ∉ L.map hdr ∧ Inv r' (L ++ [s])
+    | .error _ => hdr s ∈ L.map hdr ∧ Inv r (L ++ [s]) := by
+  have e1 : (⟨r.mods.length, s⟩ : Mod).current = (hdr s).rev := rfl
+  have e2 : (⟨r.mods.length, s⟩ : Mod).name = (hdr s).name := rfl
+  have e3 : (⟨r.mods.length, s⟩ : Mod).isSub = (hdr s).isSub := rfl
+  have hbeq : ((⟨r.mods.length, s⟩ : Mod).fullName == (hdr s).name) = decide ((hdr s).rev = "") :=
+    fullName_beq_name ⟨r.mods.length, s⟩
+  have hs' : NoAt (hdr s).name := hs
+  unfold Registry.add
+  simp only [e2, e3, hbeq]
+  by_cases hc : (hdr s).rev = ""
+  · simp only [hc, decide_true, if_true]
+    cases hum : (r.umOf (hdr s).isSub).get? (hdr s).name with
+    | some id =>
+      simp only
+      have hd : hdr s ∈ L.map hdr := by
+        have := (inv.unrev (hdr s).isSub (hdr s).name).mp (by simp [hum])
+        rw [← hc] at this; exact this
+      exact ⟨hd, inv_dup inv hd⟩
+    | none =>
+      simp only
+      exact inv_add_unrev inv hs hc hum
+  · have hfull : (⟨r.mods.length, s⟩ : Mod).fullName = (hdr s).name ++ "@" ++ (hdr s).rev := by
+      rw [fullName_eq, e1, e2, if_neg hc]
+    simp only [hc, decide_false, if_false, Bool.false_eq_true, hfull]
+    cases hg : (r.kmOf (hdr s).isSub).get? ((hdr s).name ++ "@" ++ (hdr s).rev) with
+    | some id =>
+      simp only
+      obtain ⟨o, _, hlk, _⟩ := lk_of_get? inv hg
+      have hden := inv.look (hdr s).isSub ((hdr s).name ++ "@" ++ (hdr s).rev)
+      rw [hlk] at hden
+      obtain ⟨hm, hsub, h3⟩ := denotesS_mem hden.symm
+      have hd : hdr s ∈ L.map hdr := by
+        rcases h3 with ⟨_, h3⟩ | h3
+        · have := key_inj (noAt_hdrs hL _ hm) hs' h3
+          have : hdrOf o = hdr s :=
+            calc hdrOf o = ⟨(hdrOf o).isSub, (hdrOf o).name, (hdrOf o).rev⟩ := rfl
+              _ = ⟨(hdr s).isSub, (hdr s).name, (hdr s).rev⟩ := by rw [hsub, this.1, this.2]
+              _ = hdr s := rfl
+          rw [← this]; exact hm
+        · exact absurd h3.symm (key_ne_name (noAt_hdrs hL _ hm))
+      exact ⟨hd, inv_dup inv hd⟩
+    | none =>
+      simp only
+      exact inv_add_rev inv hs hL hc hg
+
+/-! ### a whole sequence of loads -/
+
+/-- The outcomes of loading `ss` into a registry that has seen `L`, and the final invariant. -/
+theorem loadFrom_spec : ∀ (ss : List Stmt) {r : Registry} {L : List Stmt}, Inv r L →
+    (∀ t ∈ L, NoAt t.arg) → (∀ t ∈ ss, NoAt t.arg) →
+    Inv (r.loadFrom ss).1 (L ++ ss) ∧
+    (r.loadFrom ss).2.map Option.isSome = outcomesAfter (L.map hdr) (ss.map hdr)
+  | [], r, L, inv, _, _ => by simpa [Registry.loadFrom, outcomesAfter] using inv
+  | s :: rest, r, L, inv, hL, hss => by
+    have hs : NoAt s.arg := hss s (by simp)
+    have hrest : ∀ t ∈ rest, NoAt t.arg := fun t ht => hss t (by simp [ht])
+    have hL' : ∀ t ∈ L ++ [s], NoAt t.arg := by
+      intro t ht
+      rcases List.mem_append.mp ht with ht | ht
+      · exact hL t ht
+      · simp only [List.mem_singleton] at ht; subst ht; exact hs
+    have step := add_step inv hs hL
+    unfold Registry.loadFrom
+    cases hadd : r.add s with
+    | ok r' =>
+      rw [hadd] at step
+      obtain ⟨hnew, inv'⟩ := step
+      obtain ⟨ih1, ih2⟩ := loadFrom_spec rest inv' hL' hrest
+      simp only [List.map_cons, outcomesAfter, Option.isSome_none]
+      refine ⟨by simpa using ih1, ?_⟩
+      rw [ih2, List.map_append]
+      simp [hnew]
+    | error e =>
+      rw [hadd] at step
+      obtain ⟨hd, inv'⟩ := step
+      obtain ⟨ih1, ih2⟩ := loadFrom_spec rest inv' hL' hrest
+      simp only [List.map_cons, outcomesAfter, Option.isSome_some]
+      refine ⟨by simpa using ih1, ?_⟩
+      rw [ih2, List.map_append]
+      simp [hd]
+
+/-- Loading into a fresh registry. -/
+theorem loadAll_spec (ss : List Stmt) (hss : ∀ t ∈ ss, NoAt t.arg) :
+    Inv (Registry.loadAll ss).1 ss ∧
+    (Registry.loadAll ss).2.map Option.isSome = outcomes (ss.map hdr) := by
+  have := loadFrom_spec ss inv_empty (by simp) hss
+  simpa [Registry.loadAll, outcomes] using this
+
 end Goyang.Lemmas.Registry
